@@ -1,11 +1,11 @@
-(* ApiOps.v — the operator semantics the api family is instantiated with.
-   The matcher is Model/Match.v; update/extract/projection are PROVISIONAL (MiniOps) until Apply.v / Project.v are merged. *)
-From Lungo.Model Require Import Driver RunApi MiniOps Match.
+(* ApiOps.v — the operator semantics the api family is instantiated with:
+   the full models of mongokit.Match / Apply / Extract / Project. *)
+From Lungo.Model Require Import Driver RunApi Match Apply Project.
 
 Definition api_match := Match.
-Definition api_apply := mini_apply.
-Definition api_extract := mini_extract.
-Definition api_project := mini_project.
+Definition api_apply := Apply.
+Definition api_extract := Extract.
+Definition api_project := Project.
 
 Definition run_api_inst : sexp -> option string :=
   run_api api_match api_apply api_extract api_project.
